@@ -210,4 +210,23 @@ def returnResult (n : T) (src : Bytes) : Option Bytes := (n.namedChildren.head?)
 /-- block statements: every child's text (braces included — recorded finding C06:BlockStmt:statements) -/
 def blockStmts (n : T) (src : Bytes) : List Bytes := n.children.map (·.content src)
 
+/-! ### markInvokedMethods: the declaration x invocation pass on one file's graph -/
+
+mutual
+/-- (name, number of arguments) of every call in the tree -/
+def callSigs (src : Bytes) : T → List (Bytes × Nat)
+  | .mk ty f sb eb sr sc nm cs =>
+      (if ty = "method_invocation" then
+        [(invocationName (.mk ty f sb eb sr sc nm cs) src, (callArgs (.mk ty f sb eb sr sc nm cs) src).length)] else [])
+      ++ callSigsList src cs
+def callSigsList (src : Bytes) : List T → List (Bytes × Nat)
+  | [] => []
+  | c :: r => callSigs src c ++ callSigsList src r
+end
+
+/-- `node.hasAccess` of a method declaration after the pass: some call of this file has its name and as many
+    arguments as it has parameters — a function of this file's tree only -/
+def hasAccess (sigs : List (Bytes × Nat)) (name : Bytes) (nparams : Nat) : Bool :=
+  sigs.any (fun s => s.1 == name && s.2 == nparams)
+
 end Cpf.Scan
